@@ -141,6 +141,12 @@ def lock_defer_to_explicit(rw):
 
 def appendbase_func_renamed(rw):
     rw.rename("css", "minifyTokens", "minifyTokenList")
+    rw.rename_sel("css", "minifyTokens", "minifyTokenList")
+
+
+def store_via_helper(rw):
+    rw.sub("css/css.go", "\t\t\t\tvalues[start].Data = noneBytes\n", "\t\t\t\tsetData(&values[start], noneBytes)\n")
+    rw.append("css/css.go", "\nfunc setData(t *Token, b []byte) { t.Data = b }\n")
 
 
 # ---- controls ----
@@ -264,6 +270,8 @@ REWRITES = [
     R("c13-move-byte-vars", T, "invariant", "move-decl", "json: the package-level byte slices move to a new file", move_byte_vars),
     R("c13-lock-comment", T, "invariant", "comments", "M.Add: comment and blank line around the lock calls", lock_defer_to_explicit),
     R("c13-appendbase-func-renamed", T + ["c10_api"], "invariant", "rename-func", "css: the method that appends to urlBytes is renamed", appendbase_func_renamed, tests=["./css/..."]),
+    R("c13-store-via-helper", T, "invariant", "extract-helper", "css: `values[i].Data = noneBytes` through a helper setData(&values[i], noneBytes)", store_via_helper, tests=["./css/..."],
+      known="field-based alias analysis: once a callee stores its parameter in Token.Data every in-place edit of any token's data counts as a write; the direct store is deliberately outside the static fact (run-time hook)"),
     R("c13-ctl-elem-write", T, "changes", "control", "js: element write to a package-level slice", ctl_elem_write),
     R("c13-ctl-write-via-helper", T, "changes", "control", "css: helper that overwrites its argument is called with a package-level slice", ctl_write_via_helper),
     R("c13-ctl-write-via-helper-chain", T, "changes", "control", "css: helper re-slices and hands on to a helper that copies into it", ctl_write_via_helper_chain),
